@@ -629,6 +629,31 @@ def pow_branch(cx, inst, items, node):
                 wrong={"_1 ** _0": "base and exponent swapped: 2**3 becomes 9"}, multi=True)
     root = row("exponent 1/2 is the square root of the BASE", "ca.sqrt(_0)", "_0 ** 0.5",
                wrong={"ca.sqrt(_1)": "square root of the exponent", "_0 ** 2": "square instead of root"}, multi=True)
+    # integer powers expanded into a product loop: res = B; for _ in range(E): res = res * B  computes B ** (E + 1)
+    for lp in [x for x in ast.walk(node) if isinstance(x, ast.For)]:
+        if not (isinstance(lp.iter, ast.Call) and is_name(lp.iter.func, "range") and len(lp.iter.args) == 1 and len(lp.body) == 1):
+            continue
+        st = lp.body[0]
+        acc = st.target.id if isinstance(st, ast.AugAssign) and isinstance(st.op, ast.Mult) and isinstance(st.target, ast.Name) else \
+            st.targets[0].id if isinstance(st, ast.Assign) and len(st.targets) == 1 and isinstance(st.targets[0], ast.Name) and isinstance(st.value, ast.BinOp) and isinstance(st.value.op, ast.Mult) else None
+        if acc is None:
+            continue
+        factor = st.value if isinstance(st, ast.AugAssign) else (st.value.right if is_name(st.value.left, acc) else st.value.left)
+        par = getattr(lp, "_parent", None)
+        sibs = getattr(par, "body", []) if lp in getattr(par, "body", []) else getattr(par, "orelse", [])
+        init = next((x for x in sibs if isinstance(x, ast.Assign) and len(x.targets) == 1 and is_name(x.targets[0], acc) and x.lineno < lp.lineno), None)
+        if init is None:
+            continue
+        start = 1 if U(init.value) == U(factor) else 0 if (isinstance(init.value, ast.Constant) and init.value.value == 1) else None
+        cnt = U(lp.iter.args[0]).replace(" ", "")
+        full = cnt in ("int(power)", "power", "int(F.args[1])", "int(F.exp)", "n", "int(n)")
+        minus1 = cnt.endswith("-1") and cnt[:-2].strip("()") in ("int(power)", "power", "int(F.args[1])", "int(F.exp)", "n", "int(n)")
+        if start is None or not (full or minus1):
+            continue
+        total = start + (0 if full else -1)          # exponent emitted = n + total
+        if total != 0:
+            return cx.rep.fail(rule, inst, "the product loop `%s` starting from `%s` multiplies %s times: x**n is emitted as x**(n%+d), e.g. the x**2 term of every Taylor polynomial becomes x**%d"
+                               % (U(lp).split("\n")[0], U(init), "n" if full else "n - 1", total, 2 + total), where=cx.at(lp))
     one, two = single_return(items), if_two_returns(items)
     if one is not None:
         return verdict(cx, rule, inst, plain, one, node)
